@@ -36,8 +36,8 @@ Record py_wf_descs (ts : list token) (ds : list pydesc) : Prop := mkPyWf
       (* every line of the suite is indented deeper than the header's first token ... *)
       (forall k, (pd_bstart d <= k < pd_bend d)%nat -> tok_col ts (pd_start d) < line_indent ts k) /\
       (* ... the suite ends at a line boundary, and is maximal *)
-      (pd_bend d < length ts -> tok_line ts (pd_bend d - 1) < tok_line ts (pd_bend d) /\
-                                 tok_col ts (pd_bend d) <= tok_col ts (pd_start d))%nat%Z) ds;
+      ((pd_bend d < length ts)%nat -> tok_line ts (pd_bend d - 1) < tok_line ts (pd_bend d) /\
+                                      tok_col ts (pd_bend d) <= tok_col ts (pd_start d))) ds;
     pw_sorted : forall i j di dj, (i < j)%nat -> nth_error ds i = Some di -> nth_error ds j = Some dj ->
                                   (pd_start di < pd_start dj)%nat /\ (py_nested_in dj di \/ py_after dj di) }.
 
